@@ -816,6 +816,10 @@ sock_close(nni_sock *s, bool device)
 	// operation can arrive now, so run it once more to complete any
 	// such straggler instead of leaving it pending on freed memory.
 	s->s_sock_ops.sock_close(s->s_data);
+	// The same for the upper queues (raw sockets): nni_msgq_aio_get/put
+	// queue an operation on a closed queue rather than refuse it.
+	nni_msgq_close(s->s_urq);
+	nni_msgq_close(s->s_uwq);
 
 	// Because we already shut everything down before, we should not
 	// have any child objects.
